@@ -96,7 +96,7 @@ class CMRF(Distribution):
             diff = self._diff_op._matrix @ (val - self.location)
             return (-2*diff/(diff**2+self.scale**2)) @ self._diff_op._matrix
         else:
-            warnings.warn('Gradient not implemented for {}'.format(type(self.location)))
+            raise NotImplementedError('Gradient not implemented for {}'.format(type(self.location)))
 
     def _sample(self,N=1,rng=None):
         raise NotImplementedError("'CMRF.sample' is not implemented. Sampling can be performed with the 'sampler' module.")
